@@ -529,8 +529,13 @@ def main(argv):
                 inconcl.append('%s shard %d: %s' % (r['run'], s.idx, why))
                 log('---- inconclusive output (run %s shard %d): %s ----' % (r['run'], s.idx, why))
                 log(out[-3000:])
+        # one KNOWN-FINDING line per listed finding (sub-checks and shards may each report the same one)
+        per_id = {}
         for line in known:
-            print(line)
+            m = re.match(r'KNOWN-FINDING: property=\S+ ([^:\s]+)', line)
+            per_id.setdefault(m.group(1) if m else line, []).append(line)
+        for fid, lines in per_id.items():
+            print(lines[0] + (' (+%d further reports of this finding)' % (len(lines) - 1) if len(lines) > 1 else ''))
         wall = time.time() - t0
         ev = merge_evidence(pid, prop, tier, seed, os.path.join(scratch, 'evidence'), wall, len(viol_paths), known)
         everrs = validate_evidence(ev)
